@@ -99,6 +99,7 @@ def queries(tier):
     Z2 = {"style": "keep", "entry": ["tq.m1", "g0"], "path": "/t3/z"}
     qs.append(q("same.T3.falsy-default.eval-keep", "T3", [dict(Z1), dict(Z2, leaves_from=0, expect={"exec_none": True, "same_sig": [0, ["/t3/z"]]})]))
     qs.append(q("same.T3.falsy-default.keep-eval", "T3", [dict(Z2), dict(Z1, leaves_from=0, expect={"exec_none": True, "same_sig": [0, ["/t3/z"]]})]))
+    qs.append(q("same.T11.falsy-results", "T11", [{"style": "eval"}, {"style": "eval", "leaves_from": 0, "expect": NONE}, {"style": "eval", "leaves_from": 0, "restart": True, "expect": NONE}], nargs=True, timeout=600))
     # copy of the code in another accepted module: same values of RATE in both modules
     qs.append({"id": "same.T8.copy", "fn": "hist", "sel": {"template": "T8", "steps": [{"entry": ["tq.m1", "scaled"]}, {"entry": ["tq.m3", "scaled"], "leaves_from": 0, "expect": NONE}], "leaf_type": {}, "nargs": False, "store": "memory", "fixed": {}, "tie": [["tq.m1", "tq.m3", "RATE"]]}, "timeout": 300})
     # (s, s', s)
